@@ -20,7 +20,7 @@ inductive Outcome (α : Type) where
   | err (c : ErrClass)
   | panic (site : String)
   | unsupported (why : String)
-deriving Repr, Inhabited
+deriving Repr, Inhabited, DecidableEq
 
 namespace Outcome
 
@@ -41,6 +41,10 @@ instance : Monad Outcome where
 @[simp] theorem bind_unsupported {α β} (s) (f : α → Outcome β) :
     ((unsupported s : Outcome α) >>= f) = unsupported s := rfl
 @[simp] theorem pure_eq {α} (a : α) : (pure a : Outcome α) = ok a := rfl
+
+theorem bind_eq_ok {α β} (x : Outcome α) (f : α → Outcome β) (b : β) :
+    (x >>= f) = ok b ↔ ∃ a, x = ok a ∧ f a = ok b := by
+  cases x <;> simp [Bind.bind, bind]
 
 def generic {α} : Outcome α := err .generic
 
